@@ -83,7 +83,8 @@ def ca_key_blob(ca):
     raise ValueError(ca)
 
 
-def cert_blob(kind, ca, bits=3072, cert_type=2, seed=1, name=None):
+def cert_blob(kind, ca, bits=3072, cert_type=2, seed=1, name=None, key_id=b'host.example.org key', principals=(b'host.example.org',),
+              options=b'', extensions=b''):
     """OpenSSH certificate (PROTOCOL.certkeys layout). kind = 'rsa' | 'ed25519'."""
     nonce = hashlib.sha256(b'nonce-%d' % seed).digest()
     if kind == 'rsa':
@@ -98,12 +99,12 @@ def cert_blob(kind, ca, bits=3072, cert_type=2, seed=1, name=None):
     body = wire.string(tname) + wire.string(nonce) + key
     body += (1234567).to_bytes(8, 'big')            # serial
     body += wire.u32(cert_type)                      # 2 = host
-    body += wire.string(b'host.example.org key')     # key id
-    body += wire.string(wire.string(b'host.example.org'))  # valid principals
+    body += wire.string(key_id)                      # key id (free-form text)
+    body += wire.string(b''.join(wire.string(p) for p in principals))  # valid principals
     body += (0).to_bytes(8, 'big')                   # valid after
     body += (0xffffffffffffffff).to_bytes(8, 'big')  # valid before
-    body += wire.string(b'')                         # critical options
-    body += wire.string(b'')                         # extensions
+    body += wire.string(options)                     # critical options
+    body += wire.string(extensions)                  # extensions
     body += wire.string(b'')                         # reserved
     body += wire.string(ca_key_blob(ca))             # signature key
     body += wire.string(wire.string(b'ssh-ed25519') + wire.string(b'\x00' * 64))  # signature
